@@ -51,6 +51,8 @@ Definition D_wired := Eval vm_compute in
 Print D_wired.
 Definition D_send := Eval vm_compute in no_blocking_send_under_lock funcs. Print D_send.
 Definition D_blocking_senders := Eval vm_compute in blocking_senders funcs. Print D_blocking_senders.
+Definition D_notify := Eval vm_compute in notify_after_state nfuncs nentries notifiers. Print D_notify.
+Definition D_notify_violations := Eval vm_compute in notify_violations nfuncs nentries notifiers. Print D_notify_violations.
 Definition D_counts := Eval vm_compute in
   (List.length funcs, List.length guards, List.length registered, List.length main_callbacks, List.length escapes,
    fold_right (fun p n => n + List.length (snd p)) 0 funcs).
